@@ -1286,9 +1286,16 @@ fn combine2(a: Pczt, b: Pczt) -> Result<Option<Pczt>, String> {
 
 /// Runs one case under one binding. Returns a description of the first disagreement.
 fn run_case(base_l: &V, case: &J, b: &Binding, trees: &[Vec<u64>], alt_seed: usize, st: &mut MergeStats) -> Option<J> {
+    let (parties, want) = match synthetic_parties(base_l, case, b, alt_seed, st) {
+        Ok(x) => x,
+        Err(m) => return Some(m),
+    };
+    execute_trees(&parties, &want, trees, st)
+}
+
+fn synthetic_parties(base_l: &V, case: &J, b: &Binding, alt_seed: usize, st: &mut MergeStats) -> Result<(Vec<Pczt>, Option<(V, Vec<u8>)>), J> {
     let lists = case["k"].as_str().unwrap().starts_with("lists");
     let ps = case["ps"].as_array().unwrap();
-    let n = ps.len();
     let mut parties = vec![];
     for (i, p) in ps.iter().enumerate() {
         let l = realise(base_l, p, b, lists);
@@ -1296,9 +1303,9 @@ fn run_case(base_l: &V, case: &J, b: &Binding, trees: &[Vec<u64>], alt_seed: usi
         match guarded(|| Pczt::parse(&bytes)) {
             Ok(Ok(p)) => parties.push(p),
             Ok(Err(e)) => {
-                return Some(json!({"what": "parse rejected a well-formed encoding", "party": i, "error": format!("{e:?}"), "bytes": hex(&bytes)}));
+                return Err(json!({"what": "parse rejected a well-formed encoding", "party": i, "error": format!("{e:?}"), "bytes": hex(&bytes)}));
             }
-            Err(m) => return Some(json!({"what": "parse panicked", "party": i, "panic": m})),
+            Err(m) => return Err(json!({"what": "parse panicked", "party": i, "panic": m})),
         }
     }
     let want_ok = case["out"]["ok"].as_bool().unwrap();
@@ -1314,13 +1321,20 @@ fn run_case(base_l: &V, case: &J, b: &Binding, trees: &[Vec<u64>], alt_seed: usi
         None
     };
     st.cases += 1;
+    Ok((parties, want))
+}
+
+/// Executes every grouping and order of the parties (plus the n-ary fold) and compares each outcome
+/// with the predicted one. Returns a description of the first disagreement.
+fn execute_trees(parties: &[Pczt], want: &Option<(V, Vec<u8>)>, trees: &[Vec<u64>], st: &mut MergeStats) -> Option<J> {
+    let n = parties.len();
     // every grouping and order, plus the n-ary left fold in index order
     let mut all: Vec<Vec<u64>> = trees.to_vec();
     all.push(vec![]);
     for t in &all {
         let got: Result<Option<Pczt>, String> = if t.is_empty() {
             st.combines += n - 1;
-            let v = parties.clone();
+            let v = parties.to_vec();
             guarded(|| Combiner::new(v).combine().ok())
         } else {
             let mut stack: Vec<Option<Pczt>> = vec![];
@@ -1352,7 +1366,7 @@ fn run_case(base_l: &V, case: &J, b: &Binding, trees: &[Vec<u64>], alt_seed: usi
             }
         };
         let tree = if t.is_empty() { json!("fold") } else { json!(t) };
-        match (got, &want) {
+        match (got, want) {
             (Err(m), _) => return Some(json!({"what": "combine panicked", "tree": tree, "panic": m})),
             (Ok(None), None) => {}
             (Ok(None), Some(_)) => {
@@ -1603,7 +1617,81 @@ fn cmd_merge(cases_path: &str, tier: &str) {
                 if let Some(m) = run_case(&base_l, case, &b, trees, idx, &mut st) {
                     let key = format!("{}|{}|{}", b.describe(), m["what"], base.name);
                     if mismatch_keys.insert(key) && mismatches.len() < 40 {
-                        mismatches.push(json!({"kind": "merge", "base": base.name, "case": case, "binding": b.describe(), "idx": idx, "detail": m}));
+                        mismatches.push(json!({"kind": "merge", "base": base.name, "case": case, "binding": b.describe(), "idx": idx, "detail": m,
+                                               "trees": trees, "seed": seed, "tier": tier}));
+                    }
+                }
+            }
+        }
+    }
+    // the same cases with parties made by real role applications
+    let reds = redactions();
+    let mut role_cases = 0usize;
+    let mut role_skipped = 0usize;
+    let mut role_classes: BTreeSet<String> = BTreeSet::new();
+    for base in &bases {
+        let base_l = logical_of(&base.pczt);
+        let base_txid = pczt_txid(&base.pczt).map(|t| t.to_string()).unwrap_or_default();
+        let slots = role_slots(base, &base_l, &reds);
+        let mut order: Vec<usize> = (0..slots.len()).collect();
+        order.shuffle(&mut ChaCha20Rng::seed_from_u64(seed ^ 0x0C13));
+        kind_idx.clear();
+        for case in &inp.cases {
+            let k = case["k"].as_str().unwrap();
+            if !matches!(k, "opt1" | "opt2" | "four") {
+                continue;
+            }
+            let idx = {
+                let e = kind_idx.entry(k.to_string()).or_insert(0);
+                *e += 1;
+                *e - 1
+            };
+            let n = case["ps"].as_array().unwrap().len();
+            let trees = &inp.trees[&n];
+            let m = slots.len();
+            let bounds: Vec<BTreeMap<String, &RoleSlot>> = match k {
+                "opt1" => slots.iter().map(|s| BTreeMap::from([("o1".to_string(), s)])).collect(),
+                "opt2" => {
+                    let a = idx % m;
+                    let mut c = (idx + 1 + idx / m) % m;
+                    if c == a {
+                        c = (c + 1) % m
+                    }
+                    vec![BTreeMap::from([("o1".to_string(), &slots[order[a]]), ("o2".to_string(), &slots[order[c]])])]
+                }
+                _ => vec![BTreeMap::from([("o1".to_string(), &slots[order[idx % m]])])],
+            };
+            for bound in bounds {
+                let desc = json!({"roles": bound.iter().map(|(k, s)| (k.clone(), J::String(s.target.name.clone()))).collect::<serde_json::Map<_, _>>()});
+                let res = match role_parties(base, &base_l, &reds, case, &bound, &mut st) {
+                    Ok(None) => {
+                        role_skipped += 1;
+                        continue;
+                    }
+                    Ok(Some((parties, want))) => {
+                        role_cases += 1;
+                        for s in bound.values() {
+                            role_classes.insert(s.target.class.clone());
+                        }
+                        let mut r = execute_trees(&parties, &want, trees, &mut st);
+                        if r.is_none() {
+                            if let Some((_, bytes)) = &want {
+                                // the combined PCZT still implies the base's identifier
+                                let t = guarded(|| Pczt::parse(bytes).ok().and_then(|p| pczt_txid(&p).ok()).map(|t| t.to_string()));
+                                if t != Ok(Some(base_txid.clone())) {
+                                    r = Some(json!({"what": "the combined PCZT implies another transaction identifier", "got": format!("{t:?}"), "base": base_txid}));
+                                }
+                            }
+                        }
+                        r
+                    }
+                    Err(m) => Some(m),
+                };
+                if let Some(m) = res {
+                    let key = format!("{}|{}|{}", desc, m["what"], base.name);
+                    if mismatch_keys.insert(key) && mismatches.len() < 40 {
+                        mismatches.push(json!({"kind": "merge_roles", "base": base.name, "case": case, "binding": desc, "idx": idx, "detail": m,
+                                               "trees": trees, "seed": seed, "tier": tier}));
                     }
                 }
             }
@@ -1611,7 +1699,8 @@ fn cmd_merge(cases_path: &str, tier: &str) {
     }
     println!(
         "{}",
-        json!({"cases": st.cases, "combines": st.combines, "conflicts_predicted": st.conflicts_predicted,
+        json!({"role_cases": role_cases, "role_cases_skipped": role_skipped, "role_classes": role_classes,
+               "cases": st.cases, "combines": st.combines, "conflicts_predicted": st.conflicts_predicted,
                "joins_predicted": st.joins_predicted, "distinct_results": st.results.len(), "v1_results": st.v1, "v2_results": st.v2,
                "per_kind": per_kind, "slot_classes": classes.len(), "classes": classes, "bases": bases.iter().map(|b| b.name).collect::<Vec<_>>(),
                "mismatches": mismatches})
@@ -2333,6 +2422,8 @@ fn project(p: &Pczt) -> Result<(J, V), String> {
     let secp = secp256k1::Secp256k1::verification_only();
     let mut sigs = vec![];
     let mut sigok = true;
+    let nin = at(&l, &P_TIN).seq().len();
+    let nss = at(&l, &P_TIN).seq().iter().filter(|i| i.field(&st, "script_sig").opt().is_some()).count();
     for (i, inp) in at(&l, &P_TIN).seq().iter().enumerate() {
         if let V::Map(m) = inp.field(&st, "partial_signatures") {
             if !m.is_empty() {
@@ -2356,7 +2447,7 @@ fn project(p: &Pczt) -> Result<(J, V), String> {
     let v6 = g.field(&s_global(), "tx_version").u() == 6;
     Ok((
         json!({"flags": flags, "txid": txid, "enc": enc, "txv6": v6, "iron": iron, "nv2": nv2, "oanchor": oanchor, "sanchor": sanchor,
-               "cvcmx": cvcmx, "memo": memo, "rt": rt, "own": own, "get": get, "z244": z244, "sigok": sigok, "sigs": sigs}),
+               "cvcmx": cvcmx, "memo": memo, "rt": rt, "own": own, "get": get, "z244": z244, "sigok": sigok, "sigs": sigs, "nin": nin, "nss": nss}),
         l,
     ))
 }
@@ -2701,6 +2792,249 @@ fn apply_logged(w: &mut NdjsonWriter, base: &Base, reds: &[RedactDef], keys: &Pr
     Ok(ok)
 }
 
+
+// ---- merge cases with parties made by REAL role applications --------------------------------------
+
+enum Realise {
+    /// Updater: abstract value v (1 or 2) -> the op that writes it
+    Upd(Box<dyn Fn(u8) -> Op>),
+    /// Signer on a transparent input: one value (ECDSA, RFC 6979)
+    SignT(usize),
+    /// Signer on a shielded spend: every signing event yields another value; a value is carried to
+    /// another copy with Signer::apply_orchard_spend_auth_signature
+    SignRandom(Pool, usize),
+    /// a slot the base carries: 0 = cleared by the Redactor, 1 = kept
+    RedactOnly(usize, Option<usize>),
+}
+
+struct RoleSlot {
+    target: Target,
+    how: Realise,
+}
+
+fn role_slots(base: &Base, base_l: &V, reds: &[RedactDef]) -> Vec<RoleSlot> {
+    let (flat, _) = catalogue(base_l);
+    let find = |name: &str| flat.iter().find(|t| t.name == name).cloned();
+    let mut v: Vec<RoleSlot> = vec![];
+    let mut upd = |name: String, f: Box<dyn Fn(u8) -> Op>| {
+        if let Some(t) = find(&name) {
+            v.push(RoleSlot { target: t, how: Realise::Upd(f) })
+        } else {
+            panic!("no target {name}")
+        }
+    };
+    upd("global.proprietary{key0}".into(), Box::new(|tag| Op::UpdGlobal { tag }));
+    for i in 0..list_len(base_l, "tin") {
+        upd(format!("transparent.inputs[{i}].proprietary{{key0}}"), Box::new(move |tag| Op::UpdTin { i, f: 0, tag }));
+        upd(format!("transparent.inputs[{i}].bip32_derivation{{key0}}"), Box::new(move |tag| Op::UpdTin { i, f: 1, tag }));
+    }
+    for j in 0..list_len(base_l, "tout") {
+        upd(format!("transparent.outputs[{j}].proprietary{{key0}}"), Box::new(move |tag| Op::UpdTout { j, f: 0, tag }));
+        upd(format!("transparent.outputs[{j}].user_address"), Box::new(move |tag| Op::UpdTout { j, f: 1, tag }));
+        upd(format!("transparent.outputs[{j}].bip32_derivation{{key1}}"), Box::new(move |tag| Op::UpdTout { j, f: 2, tag }));
+    }
+    for (pool, list) in [(Pool::Orchard, "orchard"), (Pool::Ironwood, "ironwood")] {
+        for i in 0..list_len(base_l, list).min(1) {
+            for (f, field) in [(0u8, "spend.proprietary{key0}"), (1, "output.proprietary{key0}"), (2, "output.user_address"), (3, "spend.zip32_derivation"), (4, "output.zip32_derivation")] {
+                upd(format!("{list}.actions[{i}].{field}"), Box::new(move |tag| Op::UpdAct { pool, i, f, tag }));
+            }
+        }
+    }
+    // transparent signatures: the entry of the input's own public key
+    let st = s_tin();
+    let S::Rec(names) = &st else { unreachable!() };
+    let ps = names.iter().position(|(n, _)| *n == "partial_signatures").unwrap();
+    let secp = secp256k1::Secp256k1::signing_only();
+    for (i, sk) in base.tkeys.iter().enumerate() {
+        v.push(RoleSlot {
+            target: Target {
+                name: format!("transparent.inputs[{i}].partial_signatures{{own key}}"),
+                class: "transparent.inputs[].partial_signatures{}".into(),
+                path: vec![Step::F(1), Step::F(0), Step::I(i), Step::F(ps)],
+                kind: Kind::Entry(V::B(sk.public_key(&secp).serialize().to_vec()), S::Fixed(33)),
+                schema: S::Var,
+            },
+            how: Realise::SignT(i),
+        });
+    }
+    if let Some((i, _)) = &base.orchard_ask {
+        v.push(RoleSlot { target: find(&format!("orchard.actions[{i}].spend.spend_auth_sig")).expect("sig slot"), how: Realise::SignRandom(Pool::Orchard, *i) });
+    }
+    // everything the Redactor can clear and the base carries (optional fields; one item at a time)
+    for (r, d) in reds.iter().enumerate() {
+        // (anchors: effecting data of a v5 transaction; and the v1 encoding cannot show an absent
+        // Sapling anchor)
+        // (and "`rho` must be provided whenever `rseed` is provided", orchard crate: rho is not cleared alone)
+        if d.class.ends_with("{}") || d.class == "sapling.anchor" || d.class.ends_with("spend.rho") || (d.class.ends_with(".anchor") && base.deferred.is_none()) {
+            continue;
+        }
+        if d.list.is_empty() {
+            if let Some(t) = find(&d.class) {
+                if read_flat(base_l, &t).is_some() {
+                    v.push(RoleSlot { target: t, how: Realise::RedactOnly(r, None) });
+                }
+            }
+        } else {
+            // one item per list: the real spend's action where there is one, else the first
+            let n = list_len(base_l, d.list);
+            let pick = if d.list == "orchard" { base.orchard_ask.as_ref().map(|(k, _)| *k).unwrap_or(0) } else { 0 };
+            for i in (0..n).filter(|i| *i == pick) {
+                let name = d.class.replacen("[]", &format!("[{i}]"), 1);
+                if let Some(t) = find(&name) {
+                    if read_flat(base_l, &t).is_some() && !(name.ends_with("spend_auth_sig") && base.orchard_ask.as_ref().is_some_and(|(k, _)| *k == i)) {
+                        v.push(RoleSlot { target: t, how: Realise::RedactOnly(r, Some(i)) });
+                    }
+                }
+            }
+        }
+    }
+    v
+}
+
+/// Builds the parties of a case with real roles. Ok(None): some abstract value cannot be produced by
+/// a role (the case is skipped under this binding).
+fn role_parties(base: &Base, base_l: &V, reds: &[RedactDef], case: &J, bound: &BTreeMap<String, &RoleSlot>, st: &mut MergeStats) -> Result<Option<(Vec<Pczt>, Option<(V, Vec<u8>)>)>, J> {
+    let keys = ProvingKeys { orchard_v5: None, orchard_v6: None };
+    let ps = case["ps"].as_array().unwrap();
+    // realisability
+    for p in ps {
+        for (slot, abs) in jmap(&p["opt"]) {
+            let ok = match (&bound[&slot].how, abs) {
+                (Realise::Upd(_), _) => true,
+                (Realise::SignT(_), a) => a <= 1,
+                (Realise::SignRandom(..), _) => true,
+                (Realise::RedactOnly(..), a) => a <= 1,
+            };
+            if !ok {
+                return Ok(None);
+            }
+        }
+    }
+    // donors of randomised signatures, one signing event per abstract value
+    let mut donors: BTreeMap<(String, u64), pczt::roles::signer::SpendAuthSignature> = BTreeMap::new();
+    let fail = |what: String| json!({"what": "a role refused while the parties were made", "error": what});
+    let mut parties = vec![];
+    let mut logical = vec![];
+    for p in ps {
+        let mut q = base.pczt.clone();
+        let mut later: Vec<Op> = vec![];
+        for (slot, abs) in jmap(&p["opt"]) {
+            let rs = bound[&slot];
+            match (&rs.how, abs) {
+                (Realise::Upd(f), a) if a > 0 => q = guarded(|| f(a as u8).apply(base, reds, &keys, q, &[])).map_err(|m| fail(m))?.map_err(fail)?,
+                (Realise::SignT(i), 1) => q = guarded(|| Op::SignT { i: *i }.apply(base, reds, &keys, q, &[])).map_err(|m| fail(m))?.map_err(fail)?,
+                (Realise::SignRandom(pool, i), a) if a > 0 => {
+                    let key = (slot.clone(), a);
+                    if !donors.contains_key(&key) {
+                        let d = Op::SignAct { pool: *pool }.apply(base, reds, &keys, base.pczt.clone(), &[]).map_err(fail)?;
+                        let sig = pczt::roles::signer::extract_orchard_spend_auth_signatures(&d)
+                            .into_iter()
+                            .find(|s| s.action_index() == *i && s.value_pool() == match pool { Pool::Orchard => orchard::ValuePool::Orchard, Pool::Ironwood => orchard::ValuePool::Ironwood })
+                            .ok_or_else(|| fail("signature not found in the signed copy".into()))?;
+                        donors.insert(key.clone(), sig);
+                    }
+                    let sig = donors[&key].clone();
+                    q = guarded(|| {
+                        let mut s = Signer::new(q).map_err(|e| format!("{e:?}"))?;
+                        s.apply_orchard_spend_auth_signature(&sig).map_err(|e| format!("{e:?}"))?;
+                        Ok::<_, String>(s.finish())
+                    })
+                    .map_err(|m| fail(m))?
+                    .map_err(fail)?;
+                }
+                (Realise::RedactOnly(r, idx), 0) => later.push(Op::Redact { r: *r, idx: *idx }),
+                _ => {}
+            }
+        }
+        for op in later {
+            q = op.apply(base, reds, &keys, q, &[]).map_err(fail)?;
+        }
+        logical.push(logical_of(&q));
+        parties.push(q);
+    }
+    // the concrete value behind each abstract value: whatever the role wrote (the same for every party)
+    let mut concrete: BTreeMap<(String, u64), V> = BTreeMap::new();
+    for (p, l) in ps.iter().zip(&logical) {
+        for (slot, abs) in jmap(&p["opt"]) {
+            let got = read_flat(l, &bound[&slot].target);
+            match (abs, got) {
+                (0, None) => {}
+                (a, Some(v)) if a > 0 => {
+                    if let Some(prev) = concrete.insert((slot.clone(), a), v.clone()) {
+                        if prev != v {
+                            return Err(json!({"what": "one role application, two different values (determinism expected)", "slot": bound[&slot].target.name}));
+                        }
+                    }
+                }
+                (a, g) => {
+                    return Err(json!({"what": "the role did not leave the slot as intended", "slot": bound[&slot].target.name, "abstract": a, "present": g.is_some()}));
+                }
+            }
+        }
+    }
+    let want = if case["out"]["ok"].as_bool().unwrap() {
+        let mut l = base_l.clone();
+        for (slot, abs) in jmap(&case["out"]["v"]["opt"]) {
+            let v = if abs == 0 {
+                None
+            } else {
+                match concrete.get(&(slot.clone(), abs)) {
+                    Some(v) => Some(v.clone()),
+                    None => return Err(json!({"what": "the predicted join carries a value no party has", "slot": bound[&slot].target.name})),
+                }
+            };
+            write_flat(&mut l, &bound[&slot].target, v);
+        }
+        let bytes = canonical_bytes(&l);
+        st.joins_predicted += 1;
+        st.results.insert(digest16(&bytes));
+        if bytes[4] == 1 { st.v1 += 1 } else { st.v2 += 1 }
+        Some((l, bytes))
+    } else {
+        st.conflicts_predicted += 1;
+        None
+    };
+    st.cases += 1;
+    Ok(Some((parties, want)))
+}
+
+
+/// Re-executes one recorded merge case (replay file written by checks/c13.py).
+fn cmd_rerun(path: &str) {
+    let rep: J = serde_json::from_str(&std::fs::read_to_string(path).expect("read replay")).expect("json");
+    let seed = rep["seed"].as_u64().unwrap_or(1);
+    let bases = bases_for(rep["tier"].as_str().unwrap_or("quick"), seed);
+    let base = bases.iter().find(|b| b.name == rep["base"].as_str().unwrap()).expect("base");
+    let base_l = logical_of(&base.pczt);
+    let case = &rep["case"];
+    let trees: Vec<Vec<u64>> = rep["trees"].as_array().unwrap().iter().map(|x| x.as_array().unwrap().iter().map(|y| y.as_u64().unwrap()).collect()).collect();
+    let mut st = MergeStats::default();
+    let res = if rep["kind"] == "merge" {
+        let (flat, eq) = catalogue(&base_l);
+        let mut b = Binding::default();
+        for (k, v) in rep["binding"]["opt"].as_object().unwrap() {
+            b.opt.insert(k.clone(), flat.iter().find(|t| t.name == v.as_str().unwrap()).expect("target").clone());
+        }
+        for (k, v) in rep["binding"]["eq"].as_object().unwrap() {
+            b.eq.insert(k.clone(), eq.iter().find(|t| t.name == v.as_str().unwrap()).expect("target").clone());
+        }
+        run_case(&base_l, case, &b, &trees, rep["idx"].as_u64().unwrap_or(0) as usize, &mut st)
+    } else {
+        let reds = redactions();
+        let slots = role_slots(base, &base_l, &reds);
+        let mut bound: BTreeMap<String, &RoleSlot> = BTreeMap::new();
+        for (k, v) in rep["binding"]["roles"].as_object().unwrap() {
+            bound.insert(k.clone(), slots.iter().find(|t| t.target.name == v.as_str().unwrap()).expect("role slot"));
+        }
+        match role_parties(base, &base_l, &reds, case, &bound, &mut st) {
+            Ok(Some((parties, want))) => execute_trees(&parties, &want, &trees, &mut st),
+            Ok(None) => None,
+            Err(m) => Some(m),
+        }
+    };
+    println!("{}", json!({"mismatch": res}));
+}
+
 fn cmd_roles(trace_path: &str, nseq: usize, tier: &str) {
     let seed = seed_from_env();
     let mut rng = ChaCha20Rng::seed_from_u64(seed.wrapping_mul(0x9E37_79B9).wrapping_add(13));
@@ -2747,6 +3081,7 @@ fn main() {
     match args.get(1).map(|s| s.as_str()) {
         Some("probe") => probe(),
         Some("probe_bsk") => probe_bsk(),
+        Some("rerun") => cmd_rerun(&args[2]),
         Some("roles") => cmd_roles(&args[2], args[3].parse().expect("n"), args.get(4).map(|s| s.as_str()).unwrap_or("quick")),
         Some("probe_lock") => probe_lock(),
         Some("merge") => cmd_merge(&args[2], args.get(3).map(|s| s.as_str()).unwrap_or("quick")),
